@@ -222,6 +222,7 @@ def init_tasks_attached_first(chk: Check):
 
 def r8_full(chk: Check):
     init_tasks_attached_first(chk)
+    fresh_hash_state(chk)
     m, br, f, loc = _model(chk)
     fi = chk.tree.func("core.objects", "ConfigInformation.identifiers")
     loc = chk.loc(fi.module, fi.node)
@@ -362,6 +363,23 @@ def r14_pretasks_cross_tasks(chk: Check):
                     "tasks it depends on (their raw identifiers do not), otherwise downstream tasks of differently prepared upstream tasks share an identifier", chk.loc(ff.module, ff.node))
     walker = [c for c in fn_calls(f.node) if any(k.arg == "recurse_task" and isinstance(k.value, ast.Constant) and k.value.value is True for k in c.keywords)]
     chk.require(bool(walker), chk.fkey(f, "recurse_task"), "the pre-task collection must follow task links (recurse_task=True)", chk.loc(f.module, f.node))
+
+
+def fresh_hash_state(chk: Check):
+    """Every identifier computation starts from its own state: no parameter of the hashing code defaults to an object built once at definition
+    time (a shared ConfigPath keeps the configurations pushed by an earlier, interrupted or nested computation: loop references then depend on history)"""
+    tree = chk.tree
+    n = 0
+    for f in tree.nontest_funcs():
+        if f.module.name != "core.objects" or f.cls is None or f.cls.qual not in ("HashComputer", "ConfigPath") or isinstance(f.node, ast.Lambda):
+            continue
+        a = f.node.args
+        for d in list(a.defaults) + [d for d in a.kw_defaults if d is not None]:
+            n += 1
+            ok = isinstance(d, ast.Constant) or (isinstance(d, (ast.Name, ast.Attribute)) and src(d).split(".")[-1].isupper())
+            chk.require(ok, chk.fkey(f, f"default `{src(d)[:30]}` is a constant"), f"`{f.qual}` has the parameter default `{src(d)}`, evaluated once and shared by every call: "
+                        "the path of configurations being hashed (or any other hashing state) must be fresh for each computation", chk.loc(f.module, d))
+    chk.min_instances(n, 2, "parameter defaults of the hashing classes")
 
 
 def r15_values_written_through_guard(chk: Check):
